@@ -70,7 +70,32 @@ def _stmts(accs, depth, max_stmts, calls=True, pure=True, carried=True, unit_wei
                 kinds += ["chain_unit"]
             if depth > 1:
                 kinds += ["if_chain"]
+            if calls or pure:
+                kinds += ["rep_unit"]
             k = draw(st.sampled_from(kinds))
+            if k == "rep_unit":
+                # the same configuration written twice with something in between that may or may not keep the registers
+                # (an opaque or annotated call, a unit of any accelerator, a pure op, a loop or conditional around a call, or nothing):
+                # the second write is what deduplication wants to remove and may only remove when the state survives the middle part
+                u = draw(_unit(accs))
+                out.append(u)
+                for _ in range(draw(st.integers(0, 2))):
+                    mk = draw(st.sampled_from((["call", "call", "callfor", "callif"] if calls else []) + ["unit"] + (["pure"] if pure else [])))
+                    if mk == "call":
+                        out.append(["call", draw(st.sampled_from([False, False, True])), draw(st.integers(0, 1))])
+                    elif mk == "callfor" and depth > 0:
+                        out.append(["for", draw(_loop_hdr()), [["call", False, draw(st.integers(0, 1))]], [], []])
+                    elif mk == "callif" and depth > 0:
+                        out.append(["if", ["p", draw(st.integers(0, 3))], [["call", False, draw(st.integers(0, 1))]], []])
+                    elif mk == "pure":
+                        out.append(["pure", draw(st.sampled_from(PURE_OPS)), draw(_vref()), draw(_vref())])
+                    else:
+                        out.append(draw(_unit(accs)))
+                u2 = ["unit", u[1], list(u[2]), draw(st.sampled_from([None, None, 0, 1]))]
+                if draw(st.integers(0, 2)) == 0 and u2[2]:
+                    u2[2][draw(st.integers(0, len(u2[2]) - 1))] = draw(_vref())
+                out.append(u2)
+                continue
             if k == "if_chain":
                 # if / else-if chain without a final else whose setting branches agree on some field values, followed by a unit that
                 # writes (some of) them again: the state after the chain is an intersection over three paths
